@@ -1,7 +1,8 @@
 import RTV.Lemmas.Choice
-/-! Kernel evaluation of the neutral pool and of every (affirmative, negative) pair on the regenerated data. -/
+/-! Kernel evaluation of the neutral sample, of the completeness of the enumeration, and of every (affirmative, negative) pair of words / bare emoji on the regenerated data. -/
 namespace RTV.Choice
 set_option maxRecDepth 100000
 theorem neutral_fast : neutralOK fastEnv = true := by decide +kernel
 theorem both_fast : bothOK fastEnv = true := by decide +kernel
+theorem alts_complete_fast : (altsComplete true && altsComplete false) = true := by decide +kernel
 end RTV.Choice
